@@ -67,6 +67,9 @@ pub static POOLS: &[Pool] = &[
             "v", "f",
         ],
     },
+    // literal text that is spelled like grex's internal class tokens, next to characters that
+    // are really converted to those tokens (only meaningful together with class options)
+    Pool { name: "lookalike", syms: &["\\d", "1", "\\w", "a", "\\s", " ", "\\D", "-", "\\", "d"] },
     Pool { name: "repeat", syms: &["a", "b", "ab", "aa", "x", "1", "\u{e9}", "💩", " ", "."] },
 ];
 
@@ -350,7 +353,7 @@ pub fn program_strategy_sized(
 }
 
 pub const ALL_POOLS: &[&str] = &[
-    "abc", "cased", "meta", "marks", "clusters", "space", "digits", "sgr", "boundary", "backslash", "repeat",
+    "abc", "cased", "meta", "marks", "clusters", "space", "digits", "sgr", "boundary", "backslash", "repeat", "lookalike",
 ];
 
 /// Settings: every boolean independent; thresholds from a small set including large values.
